@@ -871,7 +871,7 @@ Proof.
   destruct (h_first h =? i).
   - destruct (e_anch (ents s3 f)).
     + apply bind_ok in H. destruct H as [s4 [H4 H5]]. inversion H5; subst s'; clear H5.
-      eapply Inv_quiet; [|split; [reflexivity|intros; apply core_le_refl]].
+      apply (Inv_quiet N s4); [|split; [reflexivity|intros; apply core_le_refl]].
       eapply free_bad_entry_inv; [eapply Inv_tw; [exact I|exact T3]| |exact H4]. rewrite L3; discriminate.
     + assert (T4 : tw f s (set_ent s3 f (e_set_anch (ents s3 f) true))).
       { destruct T3 as (A&B&C&D). apply tw_set_ent; [split; [exact A|split; [exact B|split; assumption]]|cbn; assumption|cbn; assumption]. }
@@ -879,7 +879,7 @@ Proof.
       destruct (import_entry h m (ents s4 f)) as [bf|e5] eqn:Imp.
       * eapply free_bad_entry_inv; [| |exact H].
         -- destruct bf; [|eapply Inv_tw; eauto].
-           eapply Inv_quiet; [eapply Inv_tw; [exact I|exact T4]|split; [reflexivity|intros; apply core_le_refl]].
+           apply (Inv_quiet N s4); [eapply Inv_tw; [exact I|exact T4]|split; [reflexivity|intros; apply core_le_refl]].
         -- destruct T4 as (_&_&X&_). destruct bf; st_simp; rewrite X; discriminate.
       * apply import_ok_state in Imp. destruct Imp as [Se We].
         destruct T4 as (A4&B4&C4&D4).
